@@ -221,10 +221,12 @@ def ev(t, env):
         elems = [ev(e, env) for e in t[2:]]
         if i[2] or not (0 <= i[0] < len(elems)):
             raise Invalid
-        # shape: narrowest shape containing every element shape (not documented -> only representability is checked)
-        sg = any(e[2] for e in elems)
+        # shape: narrowest shape containing every *reachable* element shape (an index of width n selects among the first
+        # 2**n elements only); not documented -> only representability is checked
+        reach = elems[:1 << i[1]]
+        sg = any(e[2] for e in reach)
         w = 0
-        for e in elems:
+        for e in reach:
             w = max(w, e[1] + (1 if sg and not e[2] else 0))
         return (elems[i[0]][0], w, sg)
     raise ValueError(t)
